@@ -301,7 +301,14 @@ func (c *fsCache) initialize(appname string) error {
 	}
 	c.fn = fragmentingFileNamer()
 	c.fnk = fragmentingFileNameKeyer()
-	c.dw = dirWalkerFunc(filepath.WalkDir)
+	// The tree is walked through the root handle, which resolves names one
+	// component at a time: the absolute path of a long key's file can exceed
+	// PATH_MAX, and [filepath.WalkDir] then fails for the whole directory.
+	c.dw = dirWalkerFunc(func(dirname string, fn fs.WalkDirFunc) error {
+		return fs.WalkDir(c.root.FS(), ".", func(p string, d fs.DirEntry, err error) error {
+			return fn(filepath.Join(dirname, filepath.FromSlash(p)), d, err)
+		})
+	})
 	c.timeout = cmp.Or(c.timeout, defaultTimeout)
 
 	return nil
